@@ -3,6 +3,7 @@
 -/
 import Valida.Spec.Ser
 import ValidaProofs.Lemmas.Basic
+import ValidaProofs.Lemmas.C12Parts
 namespace ValidaProofs
 open Valida ValidaGen
 
@@ -17,8 +18,8 @@ def SpecFor (part : Part) (spec : PyVal) : Prop :=
 /-- serialisation refuses paths with modifiers or bound data (their part specs alone would describe a
     path that selects differently) -/
 theorem C12_refuses_modifiers (p : Path) (h : p.datum ≠ .none ∨ p.multi ≠ .none ∨ p.source.isSome = true) :
-    toPartSpecs p = .error .runtime := by
-  sorry
+    toPartSpecs p = .error .runtime :=
+  C12L.toPartSpecs_modifiers p h
 
 /-- soundness: whatever is emitted describes, part by part, a part equal to the original one -/
 theorem C12_sound (p : Path) (specs : List PyVal) (h : toPartSpecs p = .ok specs) :
@@ -26,7 +27,16 @@ theorem C12_sound (p : Path) (specs : List PyVal) (h : toPartSpecs p = .ok specs
     (∀ (i : Nat) (part : Part) (spec : PyVal), p.parts[i]? = some part → specs[i]? = some spec → SpecFor part spec) ∧
     p.datum = .none ∧ p.multi = .none ∧ p.source = none ∧
     (p.concrete = false → ∃ kvs, PyVal.dict kvs ∈ specs) := by
-  sorry
+  obtain ⟨⟨h1, h2, h3⟩, hm, hc⟩ := (C12L.toPartSpecs_ok p specs).1 h
+  refine ⟨C12L.mapM_ok_length _ _ _ hm, ?_, h1, h2, h3, ?_⟩
+  · intro i part spec hp hs
+    exact C12L.emit_ok part spec (C12L.mapM_ok_getElem? _ _ _ hm i part spec hp hs)
+  · intro hcf
+    rcases hc with hc | hc
+    · rw [hcf] at hc; cases hc
+    · obtain ⟨s, hs, hd⟩ := List.any_eq_true.1 hc
+      obtain ⟨kvs, rfl⟩ := (C12L.isDict_iff s).1 hd
+      exact ⟨kvs, hs⟩
 
 /-- parts that cannot be written are refused, never approximated: a value condition, a non-equality
     key condition, a labelled part, a list part with an index, differing key and index -/
@@ -40,15 +50,19 @@ theorem C12_refuses_examples (n m : Int) (s : String) (hnm : n ≠ m) :
     (∀ p, Part.mkList (.val (.int n)) .none none none = .ok p →
       toPartSpecs { parts := [p], concrete := false, datum := .none, multi := .none, source := none } = .error .runtime) ∧
     (∀ p, Part.mkMolv (.val (.int n)) (.val (.int m)) .none none none none none = .ok p →
-      toPartSpecs { parts := [p], concrete := false, datum := .none, multi := .none, source := none } = .error .runtime) := by
-  sorry
+      toPartSpecs { parts := [p], concrete := false, datum := .none, multi := .none, source := none } = .error .runtime) :=
+  ⟨fun p h => C12L.toPartSpecs_single_error p false (C12L.refuse_value n p h),
+   fun p h => C12L.toPartSpecs_single_error p false (C12L.refuse_gt s p h),
+   fun p h => C12L.toPartSpecs_single_error p false (C12L.refuse_label s p h),
+   fun p h => C12L.toPartSpecs_single_error p false (C12L.refuse_list_index n p h),
+   fun p h => C12L.toPartSpecs_single_error p false (C12L.refuse_key_index n m hnm p h)⟩
 
 /-- the specs of bare parts are read back as bare parts -/
 theorem C12_bare_specs_parse (fuel : Nat) :
     parsePart (fuel + 1) [(.str "type", .str "map_value")] = .ok (barePart .map) ∧
     parsePart (fuel + 1) [(.str "type", .str "list_value")] = .ok (barePart .list) ∧
-    parsePart (fuel + 1) [(.str "type", .str "map_or_list_value")] = .ok (barePart .molv) := by
-  sorry
+    parsePart (fuel + 1) [(.str "type", .str "map_or_list_value")] = .ok (barePart .molv) :=
+  C12L.bare_specs_parse fuel
 
 /-- round trip: the emitted specs rebuild a path whose parts are pairwise equal to the original's, with
     no modifiers and no bound data (so `pathEq` holds once `concrete` agrees, which it does for paths
@@ -57,12 +71,15 @@ theorem C12_roundtrip (fuel : Nat) (p : Path) (specs : List PyVal) (h : toPartSp
     ∃ p', fromPartSpecs (fuel + 2) specs = .ok p' ∧ listEq partEq p'.parts p.parts = true ∧
       p'.datum = .none ∧ p'.multi = .none ∧ p'.source = none ∧
       (p'.concrete = true ↔ ∀ s ∈ specs, ∀ kvs, s ≠ .dict kvs) := by
-  sorry
+  obtain ⟨-, hm, -⟩ := (C12L.toPartSpecs_ok p specs).1 h
+  obtain ⟨parts', hr, heq⟩ := C12L.rebuild_emit_list fuel p.parts specs hm
+  refine ⟨_, C12L.fromPartSpecs_of_rebuild (fuel + 1) specs parts' hr, heq, rfl, rfl, rfl, ?_⟩
+  simp only [List.all_eq_true, Bool.not_eq_true', C12L.isDict_false_iff]
 
 /-- concrete paths of plain keys and indices always serialise, to exactly those keys and indices -/
 theorem C12_prims_roundtrip (prims : List PyVal) (p : Path)
     (hprim : ∀ v ∈ prims, (∃ s, v = .str s) ∨ (∃ n, v = .int n))
-    (h : Path.mk' (prims.map PartArg.prim) = .ok p) : toPartSpecs p = .ok prims := by
-  sorry
+    (h : Path.mk' (prims.map PartArg.prim) = .ok p) : toPartSpecs p = .ok prims :=
+  C12L.prims_roundtrip prims p hprim h
 
 end ValidaProofs
